@@ -152,7 +152,12 @@ impl Module for M {
                 } else {
                     (rng.range(0, m), rng.range(0, m))
                 };
-                let sw = if rng.chance(1, 8) { w.min(h) + rng.range(0, 3) } else { rng.range(0, if quick { 6 } else { 9 }) };
+                // keep the stroke area <= 160 px so that the u32 products of `EllipseContains` cannot overflow (C08)
+                let sw = if rng.chance(1, 8) {
+                    (w.min(h) + rng.range(0, 3)).min((160 - w.max(h)) / 2)
+                } else {
+                    rng.range(0, if quick { 6 } else { 9 })
+                };
                 let a = rng.below(3);
                 let (f, s) = *rng.pick(&cols);
                 emit(format!("ellipse.areas {} {} {} {} {} {}", x, y, w, h, sw, a));
